@@ -53,8 +53,8 @@ class Gauss:
 
     @staticmethod
     def _Triangle(nPg: int) -> tuple[_types.Numbers, _types.Numbers, _types.Numbers]:
-        """available [1, 3, 6, 7, 12]\n
-        order = [1, 2, 3, 4, 5]"""
+        """available [1, 3, 6, 7, 12, 25]\n
+        order = [1, 2, 3, 4, 5, 9]"""
         if nPg == 1:
             ksis = [1 / 3]
             etas = [1 / 3]
@@ -102,6 +102,19 @@ class Gauss:
             etas = [a, a, 1 - 2 * a, b, b, 1 - 2 * b, d, c, c, d, 1 - c - d, 1 - c - d]
 
             weights = [p1, p1, p1, p2, p2, p2, p3, p3, p3, p3, p3, p3]
+        elif nPg == 25:
+            # conical product rule: Gauss-Jacobi(1, 0) x Gauss-Legendre on the collapsed square
+            # ksi = s, eta = t (1 - s), with s, t in [0, 1]
+            from scipy.special import roots_jacobi
+
+            xs, ws = roots_jacobi(5, 1, 0)
+            xt, wt = np.polynomial.legendre.leggauss(5)
+            s = np.repeat((xs + 1) / 2, 5)
+            t = np.tile((xt + 1) / 2, 5)
+
+            ksis = s
+            etas = t * (1 - s)
+            weights = np.repeat(ws / 4, 5) * np.tile(wt / 2, 5)
         else:
             raise NotImplementedError("unknown nPg")
 
@@ -439,11 +452,21 @@ class Gauss:
             xis, etas, weights = Gauss._Triangle(nPg)  # type: ignore [assignment]
 
         elif elemType == ElemType.TRI10:
-            nPg = 6
+            if matrixType == MatrixType.rigi:
+                nPg = 6
+            elif matrixType == MatrixType.mass:
+                nPg = 12  # N_i N_j is of degree 6 and needs at least nPe = 10 points
+            else:
+                raise ValueError("unknown matrixType")
             xis, etas, weights = Gauss._Triangle(nPg)  # type: ignore [assignment]
 
         elif elemType == ElemType.TRI15:
-            nPg = 12
+            if matrixType == MatrixType.rigi:
+                nPg = 12
+            elif matrixType == MatrixType.mass:
+                nPg = 25  # N_i N_j is of degree 8 and needs at least nPe = 15 points
+            else:
+                raise ValueError("unknown matrixType")
             xis, etas, weights = Gauss._Triangle(nPg)  # type: ignore [assignment]
 
         elif elemType == ElemType.QUAD4:
@@ -472,7 +495,12 @@ class Gauss:
             x, y, z, weights = Gauss._Tetrahedron(nPg)  # type: ignore [assignment]
 
         elif elemType == ElemType.TETRA10:
-            nPg = 4
+            if matrixType == MatrixType.rigi:
+                nPg = 4
+            elif matrixType == MatrixType.mass:
+                nPg = 15  # N_i N_j is of degree 4 and needs at least nPe = 10 points
+            else:
+                raise ValueError("unknown matrixType")
             x, y, z, weights = Gauss._Tetrahedron(nPg)  # type: ignore [assignment]
 
         elif elemType == ElemType.HEXA8:
@@ -492,7 +520,12 @@ class Gauss:
             x, y, z, weights = Gauss._Prism(nPg)  # type: ignore [assignment]
 
         elif elemType == ElemType.PRISM15:
-            nPg = 6
+            if matrixType == MatrixType.rigi:
+                nPg = 6
+            elif matrixType == MatrixType.mass:
+                nPg = 21  # the 6-point rule has fewer points than the element has nodes
+            else:
+                raise ValueError("unknown matrixType")
             x, y, z, weights = Gauss._Prism(nPg)  # type: ignore [assignment]
 
         elif elemType == ElemType.PRISM18:
